@@ -2,6 +2,20 @@ from vf.sx.ob import SX
 
 P = "src/biotite/sequence/phylo/"
 OBLIGATIONS = [
+    SX("kx_upgma", "kx_c19", "ob_upgma", cls="S", engine="KX", quick=300, thorough=1800, parts={"quick": 3, "thorough": 4},
+       functions=[P + "upgma.pyx:upgma"],
+       stubs=["REAL-number semantics: float32 values as exact rationals m/4 (vf/kx/rat.py): no rounding",
+              "Tree/TreeNode (compiled classes) -> plain node model; the numpy validation prelude (allclose/isnan/comparisons) is answered for a symmetric finite non-negative matrix"],
+       bounds="n = 2..4 (thorough 5) taxa, EVERY symmetric matrix with entries m/4, 0 <= m <= 40 symbolic (ties included): every index one leaf; children of a node end at the same height; node height = half the average-linkage distance of the two merged clusters over the ORIGINAL matrix; branch lengths >= 0; no other pair of clusters present at a merge was closer"),
+    SX("kx_nj", "kx_c19", "ob_nj", cls="S", engine="KX", quick=300, thorough=900, parts={"quick": 4, "thorough": 7},
+       functions=[P + "nj.pyx:neighbor_joining"],
+       stubs=["REAL-number semantics (exact rationals)", "Tree/TreeNode -> plain node model; numpy prelude as for kx_upgma"],
+       bounds="all 3 unrooted topologies on 4 leaves and 4 topologies on 5 leaves, every edge length symbolic in 0..20 (halves; zero-length edges = ties included): the matrix is the tree metric; claim: every index one leaf and every leaf-to-leaf path length of the returned tree equals the matrix entry"),
+    SX("kx_newick", "kx_c19", "ob_newick", cls="S", engine="KX", quick=300, thorough=900, parts={"quick": 8, "thorough": 16},
+       functions=[P + "tree.pyx:TreeNode.to_newick", P + "tree.pyx:TreeNode.from_newick"],
+       stubs=["TreeNode -> field-compatible node model (_index, _distance, _children, is_leaf)", "str()/float() of branch lengths are concrete (dyadic menu)",
+              "strings: concrete length, symbolic ASCII characters (vf/sx SStr)"],
+       bounds="4 tree shapes (binary, nested, ternary, single-child), label lengths 1..2 (thorough ..3) with EVERY printable ASCII character except the five the writer rejects, labels distinct; with and without distances: parse(write(tree, labels), labels) has the same shape, leaf indices and branch lengths; a ValueError of the writer counts as refusal"),
     SX("sx_trees", "sx_c19", "ob_trees", cls="E", quick=300, thorough=900, parts={"quick": 4, "thorough": 8},
        functions=[P + "tree.pyx:Tree/TreeNode (compiled): to_newick, from_newick, copy, get_distance, distance_to, lowest_common_ancestor, __eq__/__hash__, as_binary"],
        bounds="8 tree shapes (binary, multifurcating, single-child nodes and chains of them, 2..5 leaves, dyadic branch lengths) x 6 (thorough 24) leaf labelings: Newick round trip with / without labels, without distances, with whitespace; copy; binary form; all leaf-to-leaf distances vs explicit path sums; LCA"),
